@@ -37,14 +37,24 @@ def run_variant(v, tier='quick'):
         return (vid, 'skipped', 'file missing')
     multi = kind.endswith('*')
     kind = kind.rstrip('*')
-    if src.count(old) != 1 and not (multi and src.count(old) > 1):
-        return (vid, 'skipped', f'anchor occurs {src.count(old)} times')
+    if callable(old):
+        # multi-site rewrite (e.g. extract-method): a function source -> source; returns None when its anchors are gone
+        try:
+            new_src = old(src)
+        except (ValueError, AssertionError):
+            new_src = None
+        if new_src is None:
+            return (vid, 'skipped', 'anchors of the rewrite not found')
+    else:
+        if src.count(old) != 1 and not (multi and src.count(old) > 1):
+            return (vid, 'skipped', f'anchor occurs {src.count(old)} times')
+        new_src = src.replace(old, new)
     d = scratch()
     try:
         with open(os.path.join(d, fname), 'w', encoding='utf8') as fh:
-            fh.write(src.replace(old, new))
+            fh.write(new_src)
         try:
-            compile(src.replace(old, new), fname, 'exec')
+            compile(new_src, fname, 'exec')
         except SyntaxError as exc:
             return (vid, 'broken', f'variant does not compile: {exc}')
         env = dict(os.environ, DOSA_REPO=d, DOSA_NO_EVIDENCE='1', DOSA_OUT=os.path.join(d, 'out'), PYTHONDONTWRITEBYTECODE='1',
@@ -95,7 +105,7 @@ def run_all(pid=None, jobs=16, ids=None):
     from .variants import VARIANTS
     vs = [v for v in VARIANTS if (pid is None or v[1] == pid) and (ids is None or v[0] in ids)]
     pids = sorted({v[1] for v in VARIANTS}) if pid is None else [pid]
-    gts = [(f'{p.lower()}-gtwin-{mode}', p, 'twin', mode, None, None, None) for p in pids for mode in ('unparse', 'rename', 'flip', 'hoist', 'cmpswap', 'elsify', 'opaque', 'swapadj', 'withmerge', 'loopify', 'walrus')
+    gts = [(f'{p.lower()}-gtwin-{mode}', p, 'twin', mode, None, None, None) for p in pids for mode in ('unparse', 'rename', 'flip', 'hoist', 'cmpswap', 'elsify', 'opaque', 'swapadj', 'withmerge', 'loopify', 'walrus', 'logging')
            if ids is None or f'{p.lower()}-gtwin-{mode}' in ids]
     with cf.ThreadPoolExecutor(max_workers=jobs) as ex:
         res = list(ex.map(run_variant, vs)) + list(ex.map(run_global_twin, gts))
